@@ -204,7 +204,7 @@ def shard(tier, seed, n, wide=False):
 
 def run(tier, seed):
     t0 = time.time()
-    total = 1600 if tier == 'quick' else 60000
+    total = 3200 if tier == 'quick' else 60000
     nsh = common.NPROC
     jobs = [dict(tier=tier, seed=0, n=None)] + [dict(tier=tier, seed=s, n=total // nsh) for s in common.shard_seeds(seed, nsh)]
     jobs += [dict(tier=tier, seed=s + 17, n=(32 if tier == 'quick' else 800) // 4, wide=True) for s in common.shard_seeds(seed, 4)]
